@@ -30,7 +30,7 @@ func writeFailEvidence(id, tier string, seed int, wall float64, why string) {
 }
 
 func writeEvidence(id, tier string, seed int, ps *PropertySpec, res map[string]*harnessResult, names []string,
-	validated, violations int, inconclusive, known []string, wall float64) {
+	validated, violations int, inconclusive, known []string, wall float64, xc *xcheckResult) {
 
 	states, transitions, queries := 0, 0, 0
 	solverS := 0.0
@@ -118,6 +118,10 @@ func writeEvidence(id, tier string, seed int, ps *PropertySpec, res map[string]*
 		"inconclusive_reasons":          inconclusive,
 		"known_findings_matched":        known,
 		"explanation":                   "bounded symbolic execution of the go/ssa form of /repo (regenerated this run); states = completed symbolic paths, transitions = solver-decided branch points, traces_validated = path witnesses re-run natively with equal observations",
+	}
+	if xc != nil {
+		cov["unsat_cross_check"] = xc
+		cov["solvers"] = []string{solverVersion(), xc.Solver}
 	}
 	ass := append([]string(nil), ps.Assumptions...)
 	sort.Strings(ass)
